@@ -10,6 +10,7 @@ _ENGINES = {
     "C11": ("sims.framesim", "FrameSim"),
     "C12": ("sims.modsim", "ModSim"),
     "C13": ("sims.layersim", "LayerSim"),
+    "C15": ("sims.initsim", "InitSim"),
     "C18": ("sims.datasim", "DataSim"),
 }
 
